@@ -164,7 +164,7 @@ def cases(ctx):
         c = {"kind": "sampled", "n": n, "op": op, "params": rng.choice(ps), "shape": [300], "order": order, "count": 300, "rseed": rng.randrange(10 ** 9),
              "plain": sorted(rng.sample(range(n), rng.randint(1, n - 1)))}
         if op == "FuzzyWeightedUnion" and rng.random() < 0.7:
-            c["weights_as"] = rng.choice(["float32", "float16", "float64", "int8", "int64"])
+            c["weights_as"] = rng.choice(["float32", "float32", "float64", "int64"])
             c["params"] = {"Weights": [rng.choice([1, 2, 3, 5]) if c["weights_as"].startswith("int") else rng.choice([0.5, 1.5, 2.25, 3.0, 0.75]) for _ in range(n)]}
         yield c
 
@@ -197,7 +197,7 @@ def _weights_as(params, how):
     """The same weights handed over as NumPy scalars (what the programming interface may be given)."""
     if not how or "Weights" not in params:
         return params
-    conv = {"float32": numpy.float32, "float16": numpy.float16, "float64": numpy.float64, "int8": numpy.int8, "int64": numpy.int64}[how]
+    conv = {"float32": numpy.float32, "float64": numpy.float64, "int64": numpy.int64}[how]
     p = dict(params)
     p["Weights"] = [conv(w) for w in params["Weights"]]
     return p
@@ -304,7 +304,7 @@ def run_case(ctx, case):
         return
     ctx.count("ref_postconditions")
     ctx.count("cells_compared", total)
-    bad = ref.compare(res, want, scale=scale, rel=1e-6 if dtypes and "float32" in dtypes else 1e-12)
+    bad = ref.compare(res, want, scale=scale, rel=1e-6 if (dtypes and "float32" in dtypes) or case.get("weights_as") == "float32" else 1e-12)
     if bad:
         kind, i, g, w = bad
         small = _one_cell_case(case, cols, i) if i is not None and not refs and not dtypes else case
